@@ -76,15 +76,23 @@ void harness(void) {
 #elif defined(X_EXP_BE_BIN) || defined(X_EXP_LE_BIN)
 	bn_make(&bn, &IN.a, AC, DG);
 	v = bn_value(&bn);
+#ifdef RETNULL	/* callers such as ecdsa_*_le pass NULL for the size out-parameter (fixed-size export only) */
+#define RETP NULL
+#else
+#define RETP (&ret)
+#endif
 #ifdef X_EXP_BE_BIN
-	r = bn_export_be_bin(&bn, FLAGS, buf, BS, &ret);
+	r = bn_export_be_bin(&bn, FLAGS, buf, BS, RETP);
 #else
 #ifdef KF_EXPORT_LE_BIN_TRUNC	/* known finding: buffer shorter than digits*size -> wrong fit test (truncated value / UB shift / spurious error) */
 #if BS > 0
 	V_ASSUME(!((size_t)(DG) * sizeof(bn_digit_t) > (size_t)(BS)));
 #endif
 #endif
-	r = bn_export_le_bin(&bn, FLAGS, buf, BS, &ret);
+	r = bn_export_le_bin(&bn, FLAGS, buf, BS, RETP);
+#endif
+#ifdef RETNULL
+	ret = BS;
 #endif
 #if BS == 0
 	V_ASSERT(r == EINVAL, "export: empty buffer is refused with EINVAL");
